@@ -8,5 +8,6 @@ CONSTANTS
   DEV_CopyMisMaps = FALSE
   DEV_PickleNoRebuild = FALSE
   DEV_AddRebuildsFirst = FALSE
+  DEV_DeferredRemoveKeepsPolygon = FALSE
   DEV_DiscHalfRadius = FALSE
 INVARIANT EmitS
